@@ -660,12 +660,21 @@ func sessCase(env *core.Env, idx int, prop string) *core.CaseResult {
 				res.Add("tables_created_after_restart_with_older_data", 1)
 			}
 			s.identity("after CREATE TABLE " + s.tabs[len(s.tabs)-1].decl)
-			s.dml(3+r.Intn(15), "")
+			// wide-catalog sessions: half of the tables are followed at once by a crash (image at a prefix right after CREATE TABLE
+			// returned, nothing else written since): the DDL's own catalog rows, pages and log records must be enough
+			crashAfterDDL := s.wideCatalog && len(s.tabs) > 5 && r.Intn(2) == 0 && s.base != nil
+			if !crashAfterDDL {
+				s.dml(3+r.Intn(15), "")
+			}
 			if s.dead {
 				break
 			}
-			if r.Intn(2) == 0 {
+			if crashAfterDDL || r.Intn(2) == 0 {
 				kind := []string{"clean", "crash-like-close", "crash-image"}[r.Intn(3)]
+				if crashAfterDDL {
+					kind = "crash-image"
+					res.Add("crashes_right_after_create_table", 1)
+				}
 				s.noteRestart(kind)
 				s.tags = append([]string{"restart-" + kind}, s.sticky...)
 				restarts++
